@@ -126,6 +126,17 @@ static void write_vector_into_sqltable(sqlite3 *db, char *tabname, dvector *vect
     char *err_msg = 0;
     char *sql;
 
+    /* Remove any previous content of this table: a model written earlier to the same file must not survive */
+    lenght = snprintf(NULL, 0, "DROP TABLE IF EXISTS %s;", tabname);
+    sql = xmalloc(lenght+1);
+    snprintf(sql, lenght+1, "DROP TABLE IF EXISTS %s;", tabname);
+    rc = sqlite3_exec(db, sql, callback, 0, &err_msg);
+    if(rc != SQLITE_OK){
+        fprintf(stderr, "SQL error: %s\n", err_msg);
+        sqlite3_free(err_msg);
+    }
+    xfree(sql);
+
     /* Create SQL statement */
     lenght = snprintf(NULL, 0, "CREATE TABLE IF NOT EXISTS %s (id INTEGER PRIMARY KEY AUTOINCREMENT, value REAL);", tabname);
     sql = xmalloc(lenght+1);
